@@ -6,13 +6,11 @@ toolchain go1.23.5
 
 require (
 	github.com/datastax/go-cassandra-native-protocol v0.0.0
+	github.com/pierrec/lz4/v4 v4.0.3
 	github.com/rs/zerolog v1.20.0
 	golang.org/x/tools v0.29.0
 )
 
-require (
-	github.com/golang/snappy v0.0.3 // indirect
-	github.com/pierrec/lz4/v4 v4.0.3 // indirect
-)
+require github.com/golang/snappy v0.0.3 // indirect
 
 replace github.com/datastax/go-cassandra-native-protocol => /repo
